@@ -78,4 +78,12 @@ def all_harnesses():
 
 
 def harnesses(tier, seed):
-    return fold(select(all_harnesses(), tier, seed, 14), 3)
+    hs = select(all_harnesses(), tier, seed, 14)
+    if tier == "thorough":
+        # a wait with a peer commit still to come costs 100-260 s and 3-5 GB on its own; three of
+        # them in one query were killed / timed out in the thorough run, so they are not packed
+        for h in hs:
+            sh = h.shape
+            if sh.get("side") == "reader" and sh.get("decision") == "wait" and sh.get("peer_commit", 0) >= 1 and sh.get("peer_pre_step") < 2:
+                h.foldable = False
+    return fold(hs, 3)
